@@ -54,7 +54,7 @@ CLAUSE_KEYS = CLAUSE_KEYS[2:] + CLAUSE_KEYS[:2]     # indices 0..8 are the postc
 CLAUSES = CLAUSES[2:] + CLAUSES[:2]
 
 
-def info(prop):
+def _info_bounded(prop):
     return {
         "level": "other",
         "functions": [
@@ -1341,7 +1341,7 @@ def task_shipped(group, tier, seed):
 # ---------------------------------------------------------------------------
 
 
-def tasks(prop, tier, seed):
+def _tasks_bounded(prop, tier, seed):
     t = [("static/no-recursion", task_static, (seed,), 120.0)]
     small = [
         ("graphs<=3atoms", (1, 2, 3), 0, 3, 1),
@@ -1398,7 +1398,7 @@ def _replay_copy_after_edit(cex):
             "inputs": shown}
 
 
-def replay(prop, cex):
+def _replay_bounded(prop, cex):
     if cex.get("kind") == "copy-after-edit":
         return _replay_copy_after_edit(cex)
     if cex.get("kind") == "shipped":
@@ -1421,3 +1421,42 @@ def replay(prop, cex):
             "expected": (f"name {exp['name']!r}, {len(exp['atoms'])} atoms in file order, bond graph = {len(exp['pairs'])} listed pairs "
                          f"(symmetric), are_connected == {connected_oracle(len(exp['atoms']), exp['pairs'])}, copy equal and independent"),
             "inputs": shown}
+
+
+# ---------------------------------------------------------------------------
+# deductive part (contracts/d15_atoms_vc.py) wired in
+
+
+def info(prop):
+    from . import d15_atoms_vc as D
+    d = _info_bounded(prop)
+    h = D.deductive_info()
+    d["functions"] = h["functions"] + d.get("functions", [])
+    d["stubs"] = h["stubs"] + d.get("stubs", [])
+    d["assumptions"] = h["assumptions"] + d.get("assumptions", [])
+    d["explanation"] = h["explanation"] + d.get("explanation", "")
+    d["trusted_base"] = ["z3 5.1", "vf/pyvc.py + vf/seq.py"] + d.get("trusted_base", [])
+    return d
+
+
+def tasks(prop, tier, seed):
+    from . import d15_atoms_vc as D
+    return list(D.deductive_tasks(prop, tier, seed)) + list(_tasks_bounded(prop, tier, seed))
+
+
+def replay(prop, cex):
+    if cex.get("kind") == "vc":
+        # a failed proof obligation of _itp_top_atoms: look for a failing topology in the bounded scope of the real reader
+        for name, fn, args, _lim in _tasks_bounded(prop, "quick", 0)[:10]:
+            try:
+                obs = fn(*args)
+            except Exception:
+                continue
+            for o in obs:
+                if o.get("status") == "refuted" and o.get("kind") != "guard" and o.get("cex"):
+                    r = _replay_bounded(prop, o["cex"])
+                    if r and r.get("reproduced"):
+                        r["note"] = f"failed obligation {cex.get('obligation') or cex.get('signature')} manifests on the real reader"
+                        return r
+        return {"reproduced": False, "inputs": cex, "note": "no failing topology found in the bounded scope"}
+    return _replay_bounded(prop, cex)
